@@ -11,6 +11,7 @@
 
 Expected values are computed here with explicit loops over the characters / tokens."""
 import json
+import re
 
 import c18_run
 import pv
@@ -271,7 +272,8 @@ def monitor_api(case, obs):
 # a group named on the command line that the pipeline does not have is skipped by the runner
 ZERO = ('complete', 'stop', 'stoppipeline', 'stopstepgroup', 'stop-raised-by-step',
         'raise-then-stop-in-failure-handler', 'missing-group')
-ERROR = ('raise', 'parser-error', 'missing-pipeline')
+# start-up error: main's own set-up (config look-up, log handlers) failed before the pipeline ran
+ERROR = ('raise', 'parser-error', 'missing-pipeline', 'startup-error')
 
 
 def err_line(ty, msg):
@@ -333,6 +335,10 @@ def monitor_cli(case, obs):
             ty, msg = obs['end'][1], obs['end'][2]
         else:
             ty = msg = None
+        if how == 'startup-error' and not re.search(r'\n\x1b\[91m\w+: [^\x1b]*\x1b\[0;0m\n', obs['stderr']):
+            out.append(fail('startup-error-text-missing',
+                            f'start-up fault {case["ending"]["startup"]}: stderr lacks the "<Type>: <message>" '
+                            f'line: {obs["stderr"][-300:]!r}'))
         if ty is not None and err_line(ty, msg) not in obs['stderr']:
             out.append(fail('error-text-missing', f'stderr lacks {err_line(ty, msg)!r}: {obs["stderr"][-300:]!r}'))
     if how == 'kbd' and status != 130:
@@ -352,7 +358,7 @@ def monitor_cli(case, obs):
                                            f'(parser {case["parser"]}, args {want["ctx"]!r})'))
         if exp[0] == 'err':
             out.append(fail('cli-parser-error-ignored', f'parser should have raised {exp[1]} but a step ran'))
-    elif how not in ('parser-error', 'missing-pipeline') and obs['mode'] == 'inproc':
+    elif how not in ('parser-error', 'missing-pipeline', 'startup-error') and obs['mode'] == 'inproc':
         exp = expected_context(case['parser'], True, want['ctx'], [])
         if exp[0] == 'ok':
             out.append(fail('first-step-did-not-run', f'no probe record; status {status}, '
